@@ -12,11 +12,12 @@ import (
 	"github.com/goatcms/goatcore/app"
 	"github.com/goatcms/goatcore/app/dependency"
 	"github.com/goatcms/goatcore/app/injector"
+	"github.com/goatcms/goatcore/app/scope/datascope"
 )
 
 // injectStruct builds a struct type with one *instance field per edge (tag dep:"X" / dep:"?X") and a string
 // field for the extra map injector (tag m:"k"), injects into a fresh value and returns the fields.
-func injectStruct(dp app.DependencyProvider, fields []diEdge) ([]*instance, string, error) {
+func injectStruct(dp app.DependencyProvider, fields []diEdge) ([]*instance, [4]string, error) {
 	var sf []reflect.StructField
 	for i, f := range fields {
 		tag := f.T
@@ -25,14 +26,23 @@ func injectStruct(dp app.DependencyProvider, fields []diEdge) ([]*instance, stri
 		}
 		sf = append(sf, reflect.StructField{Name: fmt.Sprintf("F%d", i), Type: reflect.TypeOf((*instance)(nil)), Tag: reflect.StructTag(fmt.Sprintf(`dep:"%s"`, tag))})
 	}
-	sf = append(sf, reflect.StructField{Name: "M", Type: reflect.TypeOf(""), Tag: `m:"k"`})
+	// the extra injectors' fields: a map injector (tag m: required k, optional ko) and a data-scope injector
+	// (tag d: required dk, optional dko), in this order
+	sf = append(sf, reflect.StructField{Name: "M", Type: reflect.TypeOf(""), Tag: `m:"k"`},
+		reflect.StructField{Name: "MO", Type: reflect.TypeOf(""), Tag: `m:"?ko"`},
+		reflect.StructField{Name: "D", Type: reflect.TypeOf(""), Tag: `d:"dk"`},
+		reflect.StructField{Name: "DO", Type: reflect.TypeOf(""), Tag: `d:"?dko"`})
 	v := reflect.New(reflect.StructOf(sf))
 	err := dp.InjectTo(v.Interface())
 	out := make([]*instance, len(fields))
 	for i := range fields {
 		out[i], _ = v.Elem().Field(i).Interface().(*instance)
 	}
-	return out, v.Elem().Field(len(fields)).String(), err
+	var extra [4]string
+	for j := 0; j < 4; j++ {
+		extra[j] = v.Elem().Field(len(fields) + j).String()
+	}
+	return out, extra, err
 }
 
 func init() { commands["dicases"] = cmdDICases }
@@ -206,11 +216,14 @@ func cmdDICases(args []string) error {
 				hasInject = true
 			}
 		}
-		variants := []bool{true}
+		// the extra injectors' keys: bit 0 = the map injector's required key, bit 1 = both optional keys,
+		// bit 2 = the data-scope injector's required key
+		variants := []int{7}
 		if hasInject {
-			variants = []bool{true, false} // the extra map injector with / without its required key
+			variants = []int{7, 6, 5, 3, 1, 0}
 		}
-		for _, mapHas := range variants {
+		for _, variant := range variants {
+			mapHas, optHas, dsHas := variant&1 != 0, variant&2 != 0, variant&4 != 0
 			for n := range calls {
 				delete(calls, n)
 			}
@@ -220,7 +233,15 @@ func cmdDICases(args []string) error {
 			if mapHas {
 				mdata["k"] = "v"
 			}
-			dp.AddInjectors([]app.Injector{injector.NewMultiInjector([]app.Injector{injector.NewMapInjector("m", mdata)})})
+			ddata := map[interface{}]interface{}{}
+			if optHas {
+				mdata["ko"] = "vo"
+				ddata["dko"] = "dvo"
+			}
+			if dsHas {
+				ddata["dk"] = "dv"
+			}
+			dp.AddInjectors([]app.Injector{injector.NewMultiInjector([]app.Injector{injector.NewMapInjector("m", mdata), datascope.NewInjector("d", datascope.New(ddata))})})
 			got := map[string]*instance{} // first instance handed out per name
 			ok := true
 			for i, h := range c.Hist {
@@ -248,18 +269,27 @@ func cmdDICases(args []string) error {
 						err = dp.AddDefaultFactory(h.N, mkFactory(h.N, "dfac"))
 					case "inject":
 						var vals []*instance
-						var mval string
-						vals, mval, err = injectStruct(dp, h.Fields)
+						var extra [4]string
+						vals, extra, err = injectStruct(dp, h.Fields)
 						// the model's verdict is about the dependency fields; the extra injector then decides
 						fieldsOk := h.Res == "ok"
-						wantErr := !fieldsOk || !mapHas
+						wantErr := !fieldsOk || !mapHas || !dsHas
 						if (err != nil) != wantErr {
-							fail("inject-result", inner, fmt.Sprintf("step %d InjectTo(%v) returned %v (extra injector has its key: %v), specification: fields %s", i, h.Fields, err, mapHas, h.Res))
+							fail("inject-result", inner, fmt.Sprintf("step %d InjectTo(%v) returned %v (extra injectors: map key %v, optional keys %v, data-scope key %v), specification: fields %s", i, h.Fields, err, mapHas, optHas, dsHas, h.Res))
 							ok = false
 							return
 						}
-						if (mval == "v") != (fieldsOk && mapHas) {
-							fail("inject-extra", inner, fmt.Sprintf("step %d the extra injector's field is %q (fields %s, key present %v)", i, mval, h.Res, mapHas))
+						// extra injectors run after the fields, in their order; each stops at its first missing required key
+						yes := func(b bool, v string) string {
+							if b {
+								return v
+							}
+							return ""
+						}
+						wantExtra := [4]string{yes(fieldsOk && mapHas, "v"), yes(fieldsOk && mapHas && optHas, "vo"),
+							yes(fieldsOk && mapHas && dsHas, "dv"), yes(fieldsOk && mapHas && dsHas && optHas, "dvo")}
+						if extra != wantExtra {
+							fail("inject-extra", inner, fmt.Sprintf("step %d the extra injectors' fields [m:k m:?ko d:dk d:?dko] are %q, specification %q (fields %s; map key %v, optional keys %v, data-scope key %v)", i, extra, wantExtra, h.Res, mapHas, optHas, dsHas))
 							ok = false
 							return
 						}
